@@ -320,28 +320,44 @@ class Schema(dict, metaclass=LogicalMeta):
         context = self.__parser__.make_context(force_error=True)
         value = field.parse_value(value, context=context)
 
-        if field.property:
-            if callable(setter):
-                # @property.fset
-                setter(self, value)
-
-            # force calculate property
-            self.__coerce_property__(field, context=context)
+        if field.property or field.dependants:
+            # the property setter or the recalculation of a dependant property can still fail:
+            # keep the current state to restore it, so that a failed assignment changes nothing
+            state = (dict.copy(self), dict(self.__dict__))
         else:
-            if field.is_no_output(value, options=self.__options__):
-                self.__dict__[field.attname] = value
-                # no output
-                if field.name in self:
-                    super().__delitem__(field.name)
-            else:
-                super().__setitem__(field.name, value)
+            state = None
 
-        if field.dependants:
-            # need to update the dependant properties
-            for dep in field.dependants:
-                dep_field = self.__parser__.get_field(dep)
-                if dep_field and dep_field.property:
-                    self.__coerce_property__(dep_field, context=context)
+        try:
+            if field.property:
+                if callable(setter):
+                    # @property.fset
+                    setter(self, value)
+
+                # force calculate property
+                self.__coerce_property__(field, context=context)
+            else:
+                if field.is_no_output(value, options=self.__options__):
+                    self.__dict__[field.attname] = value
+                    # no output
+                    if field.name in self:
+                        super().__delitem__(field.name)
+                else:
+                    super().__setitem__(field.name, value)
+
+            if field.dependants:
+                # need to update the dependant properties
+                for dep in field.dependants:
+                    dep_field = self.__parser__.get_field(dep)
+                    if dep_field and dep_field.property:
+                        self.__coerce_property__(dep_field, context=context)
+        except Exception:
+            if state:
+                data, attrs = state
+                super().clear()
+                super().update(data)
+                self.__dict__.clear()
+                self.__dict__.update(attrs)
+            raise
 
     def __setitem__(self, alias: str, value):
         if self.__options__.immutable:
